@@ -1129,6 +1129,11 @@ mzd_t *mzd_transpose(mzd_t *DST, mzd_t const *A) {
   rci_t maxsize = MAX(A->nrows, A->ncols);
   if (__M4RI_LIKELY(!mzd_is_dangerous_window(DST))) {
     _mzd_transpose(DST->data, A->data, DST->rowstride, A->rowstride, A->nrows, A->ncols, maxsize);
+    if (__M4RI_UNLIKELY(mzd_is_dangerous_window(A)) && (DST->ncols % m4ri_radix)) {
+      /* the kernels read whole words of A: with A a window, bits of its parent beyond A's last
+         column end up beyond DST's last column, where a non-window must have zeroes */
+      for (rci_t i = 0; i < DST->nrows; ++i) mzd_row(DST, i)[DST->width - 1] &= DST->high_bitmask;
+    }
     return DST;
   }
   
